@@ -47,6 +47,11 @@ def main():
     if os.path.exists(mp):
         old = json.load(open(mp))
         meta["history"] = old.get("history", []) + [{k: old.get(k) for k in ("at", "tier", "alarms")}]
+        if a.props:
+            # a partial re-run: the verdicts of the checks not re-run are kept (with the date of the run they come from)
+            kept = {p: dict(c, at=c.get("at", old.get("at"))) for p, c in old.get("checks", {}).items() if p not in meta["checks"]}
+            meta["checks"] = dict(sorted({**kept, **meta["checks"]}.items()))
+            meta["alarms"] = [p for p, c in meta["checks"].items() if c["rc"] != 0]
     json.dump(meta, open(mp, "w"), indent=1)
     print("%s repo tests:%s alarms=%s %s" % (a.nid, "pass" if meta["repo_tests_pass_with_change"] else "FAIL", meta["alarms"], meta.get("error", "")))
     for p in meta["alarms"]:
